@@ -45,6 +45,9 @@ OF OR IN CONNECTION WITH THE SOFTWARE OR THE USE OR OTHER DEALINGS IN THE SOFTWA
 
 
 #include "SimpSMTSolver.h"
+#ifdef OPENSMT_VERIF_HOOKS
+#include <common/VerifHooks.h>
+#endif
 
 #include <common/ReportUtils.h>
 
@@ -266,6 +269,13 @@ bool SimpSMTSolver::strengthenClause(CRef cr, Lit l)
     // if (!find(subsumption_queue, &c))
     subsumption_queue.insert(cr);
 
+#ifdef OPENSMT_VERIF_HOOKS
+    if (verif::on()) {
+        vec<Lit> strengthened;
+        for (unsigned i = 0; i < c.size(); ++i) { if (c[i] != l) { strengthened.push(c[i]); } }
+        verif::clause("D", strengthened);
+    }
+#endif
     if (c.size() == 2)
     {
         removeClause(cr);
@@ -615,6 +625,9 @@ bool SimpSMTSolver::eliminateVar(Var v)
         removeClause(cls[i]);
 
     // Produce clauses in cross product:
+#ifdef OPENSMT_VERIF_HOOKS
+    verif::DerivedScope verifDerivedScope; // the resolvents below are derived clauses, not input
+#endif
     for (int i = 0; i < pos.size(); i++) {
         for (int j = 0; j < neg.size(); j++) {
             vec<Lit> resolvent;
